@@ -457,6 +457,40 @@ def case_h(ctx, member):
 
 
 # ---------------------------------------------------------------------------
+# pool I: every plain statement of the golden programs as the FIRST statement of a source (right behind its CPU statement): operand
+# storage, tables and per-file state are as a fresh start leaves them, not as hundreds of earlier lines have grown them
+
+_POOL_I = None
+
+
+def pool_i():
+    global _POOL_I
+    if _POOL_I is None:
+        from . import c18
+        seen = set()
+        members = []
+        for prog in corpus.programs():
+            voc = c18.vocabulary(prog)
+            for cpu in sorted(voc):
+                for li, l in enumerate(voc[cpu]):
+                    k = (cpu.lower(), ' '.join(l.split()).lower())
+                    if k not in seen:
+                        seen.add(k)
+                        members.append(('I', prog.name, cpu, li))
+        _POOL_I = members
+    return _POOL_I
+
+
+def case_i(ctx, member):
+    from . import c18
+    _, pname, cpu, li = member
+    prog = corpus.Prog(pname)
+    line = c18.vocabulary(prog)[cpu][li]
+    text = '\tcpu\t%s\n%s\n' % (cpu, line)
+    case_small(ctx, member, text, 'I:%s:%s:%d' % (pname, cpu, li), claim=not NO_TERM_RE.search(line) and not big_count(line))
+
+
+# ---------------------------------------------------------------------------
 # pool F: dasl
 
 N_DASL = 1500
@@ -502,11 +536,11 @@ _POOLS = None
 def pools():
     global _POOLS
     if _POOLS is None:
-        _POOLS = {'A': pool_a(), 'B': pool_b(), 'C': pool_c(), 'D': pool_d(), 'E': pool_e(), 'F': pool_f(), 'G': pool_g(), 'H': pool_h()}
+        _POOLS = {'A': pool_a(), 'B': pool_b(), 'C': pool_c(), 'D': pool_d(), 'E': pool_e(), 'F': pool_f(), 'G': pool_g(), 'H': pool_h(), 'I': pool_i()}
     return _POOLS
 
 
-QUICK_SAMPLE = {'A': 160, 'B': 1500, 'C': 100000, 'D': 300, 'E': 1500, 'F': 100, 'G': 1500, 'H': 100000}      # C and H: whole pool
+QUICK_SAMPLE = {'A': 160, 'B': 1500, 'C': 100000, 'D': 300, 'E': 1500, 'F': 100, 'G': 1500, 'H': 100000, 'I': 4000}      # C and H: whole pool
 
 
 def plan(tier, seed):
@@ -524,7 +558,7 @@ def plan(tier, seed):
             n = min(QUICK_SAMPLE[k], len(members))
             chosen = rng.sample(members, n)
         # group small members so that one worker call handles a batch (cheap cases)
-        bs = {'A': 1, 'B': 40, 'C': 10, 'D': 20, 'E': 40, 'F': 20, 'G': 40, 'H': 40}[k]
+        bs = {'A': 1, 'B': 40, 'C': 10, 'D': 20, 'E': 40, 'F': 20, 'G': 40, 'H': 40, 'I': 40}[k]
         for i in range(0, len(chosen), bs):
             cases.append({'pool': k, 'members': chosen[i:i + bs]})
     return cases
@@ -809,5 +843,7 @@ def run_case(case, ctx):
             case_g(ctx, member)
         elif k == 'H':
             case_h(ctx, member)
+        elif k == 'I':
+            case_i(ctx, member)
         out.sets['pools'].add(k)
     out.nontrivial = True
